@@ -998,6 +998,9 @@ func waitReloadReadyOrSignal(
 				if log != nil {
 					log.Warnln("[Reload] Signal received while current reload is still becoming ready; ignoring it")
 				}
+				// The request is refused like any other request that arrives during
+				// a reload: tell the requester, do not just drop it.
+				restoreRejectedReloadProgress(nil, true)
 				continue
 			case syscall.SIGINT, syscall.SIGTERM, syscall.SIGQUIT, syscall.SIGKILL:
 				return reloadReadyWaitSignal, sig
